@@ -108,6 +108,12 @@ fn c01() {
     for k in jumps {
         jobs.push(Job { harness: "c01", cfg: json!({"p": 2, "n": 1, "boxed": false, "flush": k % 2 == 1, "script": "ov", "jump_k": k, "pb": pb}) });
     }
+    // entries appended on the writer thread itself (from inside the stream's next)
+    for boxed in [false, true] {
+        for n in 1..=2 {
+            jobs.push(Job { harness: "c01_writer_thread_append", cfg: json!({"n": n, "boxed": boxed, "pb": pb}) });
+        }
+    }
     finish(rep, jobs, "Every schedule (DPOR, preemption bound as configured) of P producer threads x n appends through typed/boxed handles against the real writer thread, for every stream-result script and clock-jump position listed.");
 }
 
@@ -153,6 +159,12 @@ fn c04() {
         add(json!({"mode": "self", "n": 2, "after": 1, "cap": 8, "jump_k": k, "pb": pb}));
         add(json!({"mode": "separate", "n": 1, "flushers": 1, "cap": 8, "jump_k": k, "pb": pb}));
     }
+    // a burst of 40 entries and a second request arriving while the stream is flushed for the
+    // first one, the next drain pass cut short by the deadline (clock jump at the k-th read)
+    for k in 0..tier.pick(12, 24) {
+        jobs.push(Job { harness: "c04_request_during_flush", cfg: json!({"burst": 40, "jump_k": k, "pb": tier.pick(1, 2), "max_branches": 20000}) });
+    }
+    jobs.push(Job { harness: "c04_request_during_flush", cfg: json!({"burst": 40, "pb": tier.pick(1, 2), "max_branches": 20000}) });
     finish(rep, jobs, "Every schedule (DPOR, preemption bound) of appends and flush requests (same thread, separate threads, two requesters, after shutdown, pending across the writer's shutdown, capacities 1/2/8, clock jump at every early clock read) against the real writer thread; the stream log is snapshotted inside the waker at the instant the flush future is completed and must already contain every entry appended before the request (or it was displaced) followed by a stream flush. A flush that never completes is a loom deadlock report.");
 }
 
